@@ -30,3 +30,5 @@ def run(ctx):
         from .. import tables
         nt = tables.rule_tables(ctx, cfg, prog)
         ctx.floor('R-POLY/tables obligations[%s]' % cfg, nt, 4)
+        nd = tables.rule_digit_loops(ctx, cfg, prog)
+        ctx.floor('R-POLY/digits accumulator updates[%s]' % cfg, nd, 20)
